@@ -21,7 +21,8 @@ EV_SRCS = ["datastruct/timerqueue.c", "events/events_network_selectstats.c", "ut
 # events/*.c, elasticarray.c, ptrheap.c, network_read.c and network_write.c are #included by h_af_upper.c (white-box)
 UP_SRCS = ["events/events_network_selectstats.c", "datastruct/timerqueue.c", "network/network_accept.c",
            "network/network_connect.c", "netbuf/netbuf_read.c", "netbuf/netbuf_write.c", "http/http.c", "util/sock.c",
-           "util/sock_util.c", "util/asprintf.c", "util/humansize.c", "util/monoclock.c", "util/warnp.c"]
+           "util/sock_util.c", "util/asprintf.c", "util/humansize.c", "util/monoclock.c", "util/warnp.c",
+           "aws/aws_sign.c", "alg/sha256.c", "util/hexify.c", "util/insecure_memzero.c"]
 KCAP = 70          # above this many allocations the k's are sampled (all k <= 24, then every third)
 
 
@@ -110,27 +111,37 @@ def bases_events(rng, tier):
 
 
 def bases_upper(rng, tier):
-    nb = 14 if tier == "quick" else 90
+    nb = 18 if tier == "quick" else 110
     out = []
     for bi in range(nb):
         r = rng.fork("up%d" % bi)
         ops = []
         for _ in range(r.range(2, 5 if tier == "quick" else 8)):
             k = r.below(100)
-            if k < 14:
-                ln = r.choice([1, 100, 4096, 20000])
-                ops.append("nw %d %d %d" % (ln, r.choice([1, ln, max(1, ln // 2)]), r.below(256)))
-            elif k < 28:
-                ln = r.choice([1, 100, 4096, 20000])
-                ops.append("nr %d %d %d" % (ln, r.choice([1, ln, max(1, ln // 2)]), r.below(256)))
-            elif k < 48:
+            if k < 12:
+                # 300000 / 1000000: more than a socket buffer takes at once, so the transfer is re-registered (`tryagain`)
+                ln = r.choice([1, 100, 4096, 20000, 300000, 1000000])
+                ops.append("nw %d %d %d" % (ln, r.choice([1, ln, ln, max(1, ln // 2)]), r.below(256)))
+            elif k < 24:
+                ln = r.choice([1, 100, 4096, 20000, 300000, 1000000])
+                ops.append("nr %d %d %d" % (ln, r.choice([1, ln, ln, max(1, ln // 2)]), r.below(256)))
+            elif k < 40:
                 ops.append("nbw %d %d %d" % (r.range(1, 6), r.choice([1, 10, 300, 4096, 5000]), r.below(256)))
-            elif k < 66:
+            elif k < 50:
                 chunk = r.choice([1, 100, 1000, 4096, 5000])
                 ops.append("nbr %d %d %d" % (chunk * r.range(1, 4) + r.below(3), chunk, r.below(256)))
-            elif k < 88:
-                ops.append("http %d" % r.below(3))
-            elif k < 95:
+            elif k < 62:
+                # waits of growing size: the buffer is enlarged while it holds consumed and unconsumed bytes
+                chunks = [r.choice([1, 10, 100, 1000, 3000])]
+                for _ in range(r.range(1, 4)):
+                    chunks.append(r.choice([chunks[-1], 4097, 5000, 9000, 20000, 70000]))
+                total = sum(chunks) + r.choice([0, 1, 500, 5000])
+                ops.append("nbrv %d %d %s" % (r.below(256), total, " ".join(map(str, chunks))))
+            elif k < 84:
+                ops.append("http %d" % r.below(5))
+            elif k < 92:
+                ops.append("aws %d %d" % (r.below(4), r.choice([0, 1, 55, 64, 1000])))
+            elif k < 97:
                 ops.append("hs %d" % r.choice([0, 999, 1000, 123456, 10 ** 12, (1 << 64) - 1]))
             else:
                 ops.append("spp")
@@ -138,6 +149,13 @@ def bases_upper(rng, tier):
         out.append(ops)
     # the sequence that exposed F7 (fixed): a refused reserve must not poison the writer
     out.append(["nbw 6 300 1", "nbw 3 5000 2", "end"])
+    # every signing entry point; interim (1xx) responses with header lines; a transfer bigger than the socket buffer as the
+    # first thing in a process (the event-record pool is empty, so re-registering allocates); growth of a part-consumed reader buffer
+    out.append(["aws 0 10", "aws 1 0", "aws 2 10", "aws 3 10", "end"])
+    out.append(["http 3", "http 4", "end"])
+    out.append(["nw 1000000 1000000 3", "end"])
+    out.append(["nr 1000000 1000000 4", "end"])
+    out.append(["nbrv 5 12000 100 5000 6000", "nbrv 6 30000 1000 9000 20000", "end"])
     return out
 
 
@@ -338,9 +356,12 @@ def make_components(ctx):
         rule="upper (OBSERVED BY FAULT ENUMERATION, NOT PROVED - the completion paths have no Lean failure model; the start / "
              "teardown paths are component upstart): sessions of network_write / "
              "network_read / netbuf writer (write and reserve+consume) / netbuf reader (wait+peek+consume) / http_request "
-             "(content-length, chunked, 1xx then close-delimited) / humansize / sock_addr_prettyprint over real socketpairs "
+             "(content-length, chunked, 1xx then close-delimited, 1xx with header lines) / aws_sign_* / humansize / sock_addr_prettyprint "
+             "over real socketpairs (transfers up to 1 MB, i.e. several partial sends/receives with re-registration; reader waits of "
+             "growing size with the unconsumed bytes checked after a failed wait) "
              "x {no fault, failat k, failfrom k : every k}; judged by the L1 rules of pmodel upmon only",
-        monitor_args=["upmon"], ldflags=[WRAP + ",--wrap=poll"], ignore_l2=True, env={"H_UPPER_TMP": ctx.tmp}, **common)
+        monitor_args=["upmon"], ldflags=[WRAP + ",--wrap=poll,--wrap=time"], ignore_l2=True, cpu=[],
+        env={"H_UPPER_TMP": ctx.tmp}, **common)
     ust = vlib.Component(
         "upstart", "h_af_upper.c", UP_SRCS, ["upmodel"], None, nontrivial=lambda c: c[0].startswith("fail"),
         rule="upstart: start / registration / teardown calls of network_read, network_write, network_accept, "
@@ -348,7 +369,7 @@ def make_components(ctx):
              "(fixed descriptors, harness-side listener) x {no fault, failat k, failfrom k : every k}; lock-step with "
              "Model/AllocFail.lean: live library blocks, request sizes in order (hence the number of consultations), "
              "which descriptors have a reader/writer registered, number of immediate events and timers, pool fill",
-        monitor_args=["upmon"], ldflags=[WRAP + ",--wrap=poll"], env={"H_UPPER_TMP": ctx.tmp}, **common)
+        monitor_args=["upmon"], ldflags=[WRAP + ",--wrap=poll,--wrap=time"], cpu=[], env={"H_UPPER_TMP": ctx.tmp}, **common)
     return [(cont, bases_containers), (ev, bases_events), (up, bases_upper), (ust, bases_upstart)]
 
 
@@ -367,7 +388,7 @@ def run_components(ctx, names=None):
         if names is not None and comp.name not in names:
             continue
         ctx.rules.append("%s: %s" % (comp.name, comp.rule))
-        exe, err = vlib.build_harness(ctx, comp.name, comp.harness, comp.srcs, extra=comp.extra, ldflags=comp.ldflags)
+        exe, err = vlib.build_harness(ctx, comp.name, comp.harness, comp.srcs, cpu=comp.cpu, extra=comp.extra, ldflags=comp.ldflags)
         if exe is None:
             vlib.process_failures(ctx, comp, [{"kind": "BUILD", "case": [], "index": -1, "detail": {"stderr": err}, "crash": None}])
             continue
